@@ -84,6 +84,7 @@ class Tracer:
         self.orig = Concatenator.update_array_attribute
         self.log = []
         self.uids = {}
+        self.muted = False          # calls made on a copy of the group in another workspace are not part of the model replay
 
     def num(self, u):
         if isinstance(u, bytes):
@@ -101,6 +102,8 @@ class Tracer:
         from geoh5py.shared.concatenation import ConcatenatedData
 
         def wrapped(self, entity, field, remove=False):
+            if tracer.muted:
+                return tracer.orig(self, entity, field, remove)
             kd = isinstance(entity, ConcatenatedData)
             if hasattr(entity, f"_{field}"):
                 vals = getattr(entity, f"_{field}", None)
@@ -144,7 +147,7 @@ def gen_history(rng, n_ops):
     """An abstract op list; interpreted against the live state (invalid picks are skipped)."""
     ops = [("add_hole",), ("add_hole",)]
     kinds = ["add_data"] * 10 + ["set"] * 8 + ["rm_ws"] * 3 + ["rm_parent"] * 3 + ["reopen"] * 2 + [
-        "add_hole", "rm_hole_ws", "rm_hole_parent"]
+        "add_hole", "rm_hole_ws", "rm_hole_parent", "copy_group", "copy_group"]
     for _ in range(n_ops):
         k = rng.choice(kinds)
         ops.append((k, rng.randrange(4), rng.choice(NAMES), rng.randrange(1 << 30)))
@@ -169,6 +172,11 @@ def directed_histories():
                           A(1), ("rm_ws", 1, "A", 0), ("reopen",)]))
         out.append((hid, [("add_hole",)] * 2 + [A(0), A(1), A(0, "B"), ("rm_hole_ws", 1, "A", 0), ("reopen",), ("rm_ws", 0, "B", 0), ("reopen",)]))
         out.append((hid, [("add_hole",)] * 3 + [A(0), A(1), ("set", 1, "A", 0), ("rm_ws", 1, "A", 0), ("reopen",), A(2), ("reopen",)]))
+    for hid in (1, 2):
+        # the group is copied to another workspace; the first data set of the copy is rewritten (every later start index moves),
+        # then a data set of the source
+        out.append((hid, [("add_hole",)] * 3 + [A(0), A(1), A(2), A(1, "B"), ("copy_group", 0, "A", 8), ("reopen",),
+                          ("copy_group", 0, "A", 15), ("set", 2, "A", 0), ("reopen",)]))
     return out
 
 
@@ -234,6 +242,18 @@ def run_history(ctx: Ctx, tracer: Tracer, hist_id: int, version: float, ops, pat
                     failures.append((f"{hname}.{n}: read {got} expected {vals} {tag}",
                                      f"C04:{tag.split(':')[0]}:values"))
         return g
+
+    def compare_group(ws_any, refmap, tag):
+        for hname_, datas in refmap.items():
+            h_ = ws_any.get_entity(hname_)[0]
+            if h_ is None:
+                failures.append((f"hole {hname_} not found {tag}", f"C04:{tag.split(':')[0]}:hole-lost"))
+                continue
+            for n_, vals in datas.items():
+                ent = [e for e in h_.get_data(n_) if e is not None] if n_ in h_.get_data_list() else []
+                got = toks(ent[0].values) if ent and ent[0].values is not None else None
+                if got != vals:
+                    failures.append((f"{hname_}.{n_}: read {got} expected {vals} {tag}", f"C04:{tag.split(':')[0]}:values"))
 
     def check_raw(tag):
         import h5py
@@ -364,6 +384,56 @@ def run_history(ctx: Ctx, tracer: Tracer, hist_id: int, version: float, ops, pat
                     del ref[hname]
                     stats["replaced"] += 1
                     ctx.count("op:" + kind)
+                elif kind == "copy_group":
+                    # the group is copied into another workspace; a data set is then rewritten in the copy and one in the
+                    # source: each group must keep reading its own values (live and, for the copy, after re-opening)
+                    if renamed or not any(ref[x] for x in ref):
+                        return
+                    cands = sorted((hh, nn) for hh in ref for nn in ref[hh])
+                    h2name, d2name = cands[op[3] % len(cands)]
+                    hs_name, ds_name = cands[(op[3] // 7) % len(cands)]
+                    path2 = str(path) + ".copy.geoh5"
+                    ref2 = {hh: dict(dd) for hh, dd in ref.items()}
+                    tracer.muted = True
+                    try:
+                        ws2 = Workspace.create(path2)
+                        g.copy(parent=ws2)
+                        compare_group(ws2, ref2, "copy_group:fresh-copy")
+                        n2 = depth_len[h2name]
+                        v2 = rng_vals.integers(-800, 800, size=n2) / 8.0
+                        ws2.get_entity(h2name)[0].get_data(d2name)[0].values = v2
+                        ref2[h2name][d2name] = toks(v2)
+                        if op[3] % 2 == 0:
+                            # the copy's hole also gets a new name: the source's hole must keep its own
+                            ws2.get_entity(h2name)[0].name = h2name + "_in_copy"
+                            ref2[h2name + "_in_copy"] = ref2.pop(h2name)
+                    finally:
+                        tracer.muted = False
+                    # values the caller has not read yet are fetched from the concatenated arrays: drop the cached copies
+                    for hh in ref:
+                        hx = ws.get_entity(hh)[0]
+                        for nn in (hx.get_data_list() if hx is not None else []):
+                            for ee in hx.get_data(nn):
+                                if ee is not None and hasattr(ee, "_values"):
+                                    ee._values = None  # pylint: disable=protected-access
+                    check_api(ws, "copy_group:source-after-edit-of-copy")
+                    ns = depth_len[hs_name]
+                    vs_ = rng_vals.integers(-800, 800, size=ns) / 8.0
+                    ws.get_entity(hs_name)[0].get_data(ds_name)[0].values = vs_
+                    ref[hs_name][ds_name] = toks(vs_)
+                    stats["replaced"] += 1
+                    tracer.muted = True
+                    try:
+                        compare_group(ws2, ref2, "copy_group:copy-after-edit-of-source")
+                        ws2.close()
+                        ws2 = Workspace(path2)
+                        compare_group(ws2, ref2, "copy_group:copy-reopened")
+                        ws2.close()
+                    finally:
+                        tracer.muted = False
+                        if os.path.exists(path2):
+                            os.remove(path2)
+                    ctx.count("op:copy_group")
                 elif kind == "rename":
                     if dname not in ref[hname]:
                         return
